@@ -340,3 +340,120 @@ Proof.
     inversion H. subst. reflexivity. }
   lia.
 Qed.
+
+(* ---------------------------------------------------------------------------------------- *)
+(* The step contracts never fire on the model.  The contracts read the states p, q off the observations
+   (state_of_obs); the statements are about exactly those states. *)
+
+Theorem s_c01_sound pre post blk sender o ms :
+  let st := state_of_obs pre false in let st' := state_of_obs post false in
+  Inv01 st -> ob_unlisted post = [] -> step st blk sender o = Ok (st', ms) -> s_c01 pre post sender o true = 0.
+Proof.
+  cbv zeta. set (st := state_of_obs pre false). set (st' := state_of_obs post false). intros H01 Hu H.
+  destruct (step_inv01 _ _ _ _ _ _ H01 H) as (_ & E & L).
+  unfold s_c01. fold st. fold st'. rewrite Hu.
+  rewrite (proj2 (N.eqb_eq _ _) E). cbn [negb]. rewrite (proj2 (N.leb_le _ _) L). cbn [negb].
+  rewrite (model_s_c01_delta _ _ _ _ _ _ H). reflexivity.
+Qed.
+
+Theorem s_c01_sound_refused pre sender o :
+  let st := state_of_obs pre false in Inv01 st -> ob_unlisted pre = [] -> s_c01 pre pre sender o false = 0.
+Proof.
+  cbv zeta. set (st := state_of_obs pre false). intros (_ & E & L) Hu. unfold s_c01. fold st. rewrite Hu.
+  rewrite (proj2 (N.eqb_eq _ _) E). cbn [negb]. rewrite (proj2 (N.leb_le _ _) L). cbn [negb].
+  rewrite N.eqb_refl. cbn [andb].
+  assert (F: bal_all st (bal st) (addrs_of st st []) = true).
+  { unfold bal_all. apply forallb_forall. intros a _. apply N.eqb_refl. }
+  rewrite F. reflexivity.
+Qed.
+
+
+Lemma minter_eqb_refl x : minter_eqb x x = true.
+Proof.
+  unfold minter_eqb. destruct x as [[a [c|]]|]; cbn; rewrite ?N.eqb_refl; reflexivity.
+Qed.
+Lemma minter_eqb_neq x y : minter_eqb x y = false -> x <> y.
+Proof. intros H E. subst. rewrite minter_eqb_refl in H. discriminate. Qed.
+
+(* S_C13 never fires on the model: accepted step *)
+Theorem s_c13_sound pre post blk sender o ms :
+  let st := state_of_obs pre false in let st' := state_of_obs post false in
+  Inv01 st -> InvCap st -> step st blk sender o = Ok (st', ms) -> s_c13 pre post sender o true = 0.
+Proof.
+  cbv zeta. set (st := state_of_obs pre false). set (st' := state_of_obs post false). intros H01 Hc H.
+  pose proof (step_inv_cap _ _ _ _ _ _ Hc H) as Hc'. pose proof (step_inv01 _ _ _ _ _ _ H01 H) as H01'.
+  unfold s_c13. fold st. fold st'.
+  (* clause 1 *)
+  destruct (supply st <? supply st') eqn:L.
+  - apply N.ltb_lt in L. destruct (mint_guard _ _ _ _ _ _ H L) as (rc & n & cap & -> & Hm & _).
+    rewrite Hm. rewrite N.eqb_refl. cbn [andb negb].
+    (* clause 2 *)
+    destruct (minter st') as [[m' [c|]]|] eqn:Em'.
+    + pose proof (Hc' m' c Em') as Le. destruct (c <? supply st') eqn:C; [apply N.ltb_lt in C; lia|].
+      destruct (negb (minter_eqb (Some (sender, cap)) (Some (m', Some c)))) eqn:Mq.
+      * exfalso. apply negb_true_iff in Mq. apply minter_eqb_neq in Mq.
+        destruct (minter_change_guard _ _ _ _ _ _ H) as (nm & cap' & X & _); [rewrite Em', Hm; congruence|discriminate].
+      * cbn [andb]. destruct H01' as (_ & E & _). rewrite <- E. rewrite C. reflexivity.
+    + destruct (negb (minter_eqb (Some (sender, cap)) (Some (m', None)))) eqn:Mq.
+      * exfalso. apply negb_true_iff in Mq. apply minter_eqb_neq in Mq.
+        destruct (minter_change_guard _ _ _ _ _ _ H) as (nm & cap' & X & _); [rewrite Em', Hm; congruence|discriminate].
+      * reflexivity.
+    + exfalso. destruct (minter_change_guard _ _ _ _ _ _ H) as (nm & cap' & X & _); [rewrite Em', Hm; discriminate|discriminate].
+  - cbn [andb].
+    assert (C2: match minter st' with Some (_, Some c) => c <? supply st' | _ => false end = false).
+    { destruct (minter st') as [[m' [c|]]|] eqn:Em'; try reflexivity. pose proof (Hc' m' c Em'). apply N.ltb_ge. lia. }
+    rewrite C2.
+    assert (C5: match minter st' with Some (_, Some c) => c <? sum (balances st') | _ => false end = false).
+    { destruct H01' as (_ & E & _). rewrite <- E. exact C2. }
+    destruct (minter_eqb (minter st) (minter st')) eqn:Mq; cbn [negb andb].
+    + (* role unchanged *)
+      destruct o; try (rewrite ?andb_false_r; rewrite C5; reflexivity).
+      * (* Mint accepted: by the minter *)
+        pose proof H as H'. apply mint_spec in H'. destruct H' as (r & cap & _ & Hm & _). rewrite Hm, N.eqb_refl. cbn [negb andb]. rewrite C5. reflexivity.
+      * pose proof H as H'. apply update_minter_spec in H'. destruct H' as (cap & Hm & _). rewrite Hm, N.eqb_refl. cbn [negb andb]. rewrite C5. reflexivity.
+    + apply minter_eqb_neq in Mq.
+      destruct (minter_change_guard _ _ _ _ _ _ H (fun E => Mq (eq_sym E))) as (nm & cap & -> & Hm & _).
+      rewrite Hm, N.eqb_refl. cbn [andb negb].
+      pose proof H as H'. apply update_minter_spec in H'. destruct H' as (cap2 & Hm2 & _ & [[-> Hst]|(x & -> & Hst)]).
+      * rewrite Hst. cbn [minter set_minter]. cbn [minter_eqb opt_eqb negb]. rewrite Hst in C5. cbn [minter set_minter] in C5. reflexivity.
+      * rewrite Hm in Hm2. inversion Hm2; subst cap2. rewrite Hst. cbn [minter set_minter]. rewrite minter_eqb_refl. cbn [negb].
+        rewrite Hst in C5. cbn [minter set_minter balances] in C5. cbn [set_minter balances]. rewrite C5. reflexivity.
+Qed.
+
+(* ... and on a refused call, which leaves everything as it was *)
+Theorem s_c13_sound_refused pre sender o :
+  let st := state_of_obs pre false in Inv01 st -> InvCap st -> s_c13 pre pre sender o false = 0.
+Proof.
+  cbv zeta. set (st := state_of_obs pre false). intros (_ & E & _) Hc. unfold s_c13. fold st.
+  rewrite N.ltb_irrefl. cbn [andb]. rewrite minter_eqb_refl. cbn [negb andb].
+  assert (C2: match minter st with Some (_, Some c) => c <? supply st | _ => false end = false).
+  { destruct (minter st) as [[m' [c|]]|] eqn:Em'; try reflexivity. pose proof (Hc m' c Em'). apply N.ltb_ge. lia. }
+  rewrite C2. rewrite <- E. rewrite C2. reflexivity.
+Qed.
+
+
+Lemma al_eqb_refl a : al_eqb a a = true.
+Proof. unfold al_eqb. rewrite N.eqb_refl. rewrite (proj2 (exp_eqb_eq _ _) eq_refl). reflexivity. Qed.
+Lemma entry_eqb_refl e : entry_eqb e e = true.
+Proof. unfold entry_eqb, key_eqb. rewrite !N.eqb_refl, al_eqb_refl. reflexivity. Qed.
+Lemma list_eqb_refl' {A} (eqb : A -> A -> bool) : (forall x, eqb x x = true) -> forall l, list_eqb eqb l l = true.
+Proof. intros H l. induction l as [|x r IH]; cbn [list_eqb]; [reflexivity|]. rewrite H, IH. reflexivity. Qed.
+
+Theorem s_c19_sound post :
+  let st := state_of_obs post false in Inv19 st ->
+  ob_point post = filter (fun e => negb (is_default (snd e))) (ob_owner post) ->
+  s_c19 post = 0.
+Proof.
+  cbv zeta. intros (S1 & S2 & M & _) Hp. unfold s_c19. rewrite Hp. rewrite (list_eqb_refl' entry_eqb entry_eqb_refl). cbn [negb].
+  cbn [state_of_obs allow allow_sp] in S1, S2, M.
+  assert (F2: forallb (fun e => match get ordNN (ob_owner post) (fst (flip e)) with
+                                | Some a => al_eqb a (snd e) | None => false end) (ob_spender post) = true).
+  { apply forallb_forall. intros [[s o] a] Hin. cbn [flip fst snd].
+    pose proof (in_get ordNN _ _ _ S2 Hin) as G. rewrite (M o s), G. apply al_eqb_refl. }
+  rewrite F2. cbn [negb].
+  assert (F3: forallb (fun e => match get ordNN (ob_spender post) (fst (flip e)) with
+                                | Some a => al_eqb a (snd e) | None => false end) (ob_owner post) = true).
+  { apply forallb_forall. intros [[o s] a] Hin. cbn [flip fst snd].
+    pose proof (in_get ordNN _ _ _ S1 Hin) as G. rewrite <- (M o s), G. apply al_eqb_refl. }
+  rewrite F3. reflexivity.
+Qed.
